@@ -119,6 +119,7 @@ def little_endian(ctx):
     address, byte i being bits 8i..8i+7 of the value. Independent of which conversions spell it."""
     ck, facts, R = ctx.check, ctx.facts, ctx.roles
     pr = P.HandlerPrims(facts, R)
+    pr.normalize_le = False  # this rule reads the byte tuples itself
     ADDR = A.W(("address",), 64)
     n = 0
 
